@@ -1,0 +1,30 @@
+//go:build verif
+
+package genetics
+
+import (
+	"context"
+
+	"github.com/yaricom/goNEAT/v4/neat"
+)
+
+// Verification hooks for properties C07 (compatibility distance) and C08 (speciation).
+// Thin exported wrappers around unexported methods; nothing here is compiled without the
+// build tag `verif`, and no existing declaration is touched.
+
+// VC07CompatLinear calls the unexported linear compatibility method.
+func VC07CompatLinear(g, og *Genome, opts *neat.Options) float64 { return g.compatLinear(og, opts) }
+
+// VC07CompatFast calls the unexported fast compatibility method.
+func VC07CompatFast(g, og *Genome, opts *neat.Options) float64 { return g.compatFast(og, opts) }
+
+// VC07Compatibility calls the unexported dispatching compatibility method.
+func VC07Compatibility(g, og *Genome, opts *neat.Options) float64 { return g.compatibility(og, opts) }
+
+// VC07Duplicate calls the unexported genome duplication.
+func VC07Duplicate(g *Genome, newId int) (*Genome, error) { return g.duplicate(newId) }
+
+// VC08Speciate calls the unexported Population.speciate.
+func VC08Speciate(p *Population, ctx context.Context, organisms []*Organism) error {
+	return p.speciate(ctx, organisms)
+}
